@@ -3,6 +3,7 @@ import LcmModel.Sim
 import LcmModel.Diag
 import LcmModel.Spec
 import LcmModel.Keys
+import LcmModel.Validate
 import LcmModel.ArgmaxND
 import LcmModel.Kwargs
 import LcmModel.GridsPy
@@ -283,6 +284,26 @@ def handle (j : Json) : Except String Json := do
       ("function_order", toJson (fp.map (·.1))),
       ("shocks", Json.mkObj (ss.map fun (x, sh) => (x, toJson sh))),
       ("has_shocks", toJson (!ss.isEmpty))])]
+  | "validate_model" =>
+    let mj ← j.getObjVal? "model"
+    let fs ← (← mj.getObjVal? "functions").getArr?
+    let funcs ← fs.toList.mapM fun f => do
+      pure ({ func := { name := ← f.getObjValAs? String "name", args := (← f.getObjValAs? (Array String) "args").toList,
+                        body := .num 0, stochastic := ← f.getObjValAs? Bool "stochastic" },
+              keyIsStr := (f.getObjValAs? Bool "key_ok").toOption.getD true,
+              isCallable := (f.getObjValAs? Bool "value_ok").toOption.getD true } : RawFunc)
+    let parseRawVars := fun (vj : Json) => do
+      let arr ← vj.getArr?
+      arr.toList.mapM fun e => do
+        let p ← e.getArr?
+        let isGrid := ((p[2]?).bind fun x => x.getBool?.toOption).getD true
+        let keyOk := ((p[3]?).bind fun x => x.getBool?.toOption).getD true
+        let grid ← if isGrid then parseGrid p[1]! else pure (Grid.disc 0)
+        pure ({ name := ← (p[0]!).getStr?, grid := grid, keyIsStr := keyOk, isGrid := isGrid } : RawVar)
+    let raw : RawModel := { nPeriods := ← mj.getObjValAs? Int "n_periods", functions := funcs,
+                            choices := ← parseRawVars (← mj.getObjVal? "choices"), states := ← parseRawVars (← mj.getObjVal? "states") }
+    return Json.mkObj [("ok", Json.str (match validateModel raw with
+      | .accepted => "accepted" | .modelInitError => "ModelInit" | .valueError => "ValueError"))]
   | "variable_info" =>
     let m ← parseModel (← j.getObjVal? "model")
     return Json.mkObj [("ok", toJson ((variableInfo m).map (·.name)))]
